@@ -135,3 +135,43 @@ _stub("C13", "Decides structural clauses of C13: coordinate-space typing of colr
              "transform format incl. the (xx,yx,xy,yy,dx,dy) converter order; colour mapping (0xFFFF -> currentColor, palette index only "
              "for multi-palette fonts, alpha product) and COLRv0 layer order. Does NOT decide picture equality or curve conversion.",
       "rendered-picture equality; SVGPathPen quadratic/cubic conversion; angle conventions of rotate/skew in picosvg")
+
+_stub("C03", "Decides structural clauses of C03: every PaintGlyph context (and only those) yields exactly one COLRv0 layer / glyf "
+             "component; the component or transformed composite carries the transform and glyph of the same traversal context and a "
+             "composite is created exactly when that transform is not the identity; the v0 palette keeps alpha and layers look their "
+             "colour up unmodified; base-glyph extents are drawn for v0 with each glyph's own bounds; the single-component flattening "
+             "requires an unshared component and carries the codepoint over. Does NOT decide picture equality or quantisation.",
+      "rendered-picture equality; outline quantisation")
+_stub("C04", "Decides structural clauses of C04: all sites naming glyphs from codepoints call glyph.glyph_name; the length predicates "
+             "at the cmap / ligature / blank-glyph sites, evaluated over sequence lengths, put length 1 in cmap and every length >= 2 "
+             "in ligatures (disjoint, covering); the .notdef/.space skeleton and gid bookkeeping; the advance rule; the regular-language "
+             "abstraction of glyph_name (token = ASCII letter | hex, '_' separator, 'g_' prefix) is tested for injectivity by an NFA "
+             "product; duplicate names/codepoints are rejected. Does NOT decide that feaLib's GSUB resolves overlapping sequences or "
+             "the behaviour of custom glyph-map generators.",
+      "GSUB lookup resolution by feaLib; custom glyphmap generators; sha1 collisions")
+_stub("C05", "Decides structural clauses of C05: the clip box is the union over every PaintGlyph of every root, each measured with "
+             "ControlBoundsPen through TransformPen with the transform of its own context (identity shortcut only under "
+             "almost_equals), minima rounded down and maxima up to the quantisation step after otRound, default step 2% of upem, one "
+             "entry per glyph keyed by its own name, none for empty glyphs, COLRv1 only. Does NOT decide that control bounds contain "
+             "the compiled outline after cu2qu nor numeric containment.",
+      "containment of the compiled (quantised, cu2qu-converted) outlines; rounding slack")
+_stub("C07", "Decides the few structural necessary conditions of C07: post format 3 unless names are kept (set after apply_ttfont), "
+             "names forced and asserted for the picosvg reshuffle; fonts fully loaded before reordering; SVG document ranges from the "
+             "renumbered ids, empty documents skipped, gradient ids unique and not shared across documents; cross-glyph reuse through "
+             "<defs>; CBDT runs sorted by gid, split at gaps, consecutiveness asserted, names/locations from one sequence, consecutive "
+             "offsets. Does NOT decide anything about the binary: that it loads, decompiles, re-saves, or that cross-references are in "
+             "range (fontTools/ufo2ft at run time).",
+      "everything about the compiled binary (COLR/CPAL ranges, cmap/hmtx/maxp agreement, sanitiser rules)")
+_stub("C14", "Decides structural clauses of C14: dimension typing (px, fu, px/em) of every arithmetic expression in the bitmap "
+             "metrics; the name, metrics and bytes of each sbix/CBDT record derive from the same glyph and the bytes are the PNG "
+             "unchanged; oversize bitmaps are rejected before strikes are built and the 8-bit assertions dominate the metrics' return; "
+             "ppem comes from the single bitmap height of the strike. Does NOT decide the pixel-exact placement bounds (one/two px) or "
+             "fontTools' packing.",
+      "the +-1/+-2 pixel placement bounds; fontTools' CBDT/sbix packing")
+_stub("C15", "Decides structural clauses of C15: the normalisation applied when the palette is built equals the one applied at every "
+             "look-up (v0: unmodified, v1: opaque with alpha carried by the paint/stop), the same list is written to CPAL; the "
+             "foreground colour is excluded by the predicate index_from short-circuits on (0xFFFF); conflicting explicit indices raise, "
+             "the palette is never empty, the slot count and fill discipline place indexed colours at their own index and assert every "
+             "colour was placed; iteration is over a sorted sequence. Does NOT decide the slot-filling arithmetic for all colour sets "
+             "(a run-time fact).",
+      "exhaustive correctness of slot assignment over all colour multisets")
